@@ -2538,6 +2538,11 @@ func hasSub(v ssa.Value, d int) bool {
 	if d > 6 {
 		return false
 	}
+	// a value of an unsigned type is not negative whatever was subtracted inside it (it wraps): converted to int it is
+	// within [0, max of the type]
+	if b, ok := v.Type().Underlying().(*types.Basic); ok && b.Info()&types.IsUnsigned != 0 && b.Kind() != types.Uint && b.Kind() != types.Uint32 && b.Kind() != types.Uint64 && b.Kind() != types.Uintptr {
+		return false
+	}
 	switch t := v.(type) {
 	case *ssa.BinOp:
 		if t.Op == token.SUB {
